@@ -110,10 +110,15 @@ FusionEngineFramer::~FusionEngineFramer() { ClearManagedBuffer(); }
 
 /******************************************************************************/
 void FusionEngineFramer::SetBuffer(void* buffer, size_t capacity_bytes) {
-  if (capacity_bytes < sizeof(MessageHeader)) {
+  // We enforce 4B alignment below. For user-provided storage, the bytes before
+  // the first aligned address cannot be used and do not count towards the
+  // capacity.
+  size_t alignment_bytes =
+      buffer == nullptr ? 0 : ((4 - (reinterpret_cast<size_t>(buffer) & 3)) & 3);
+  if (capacity_bytes < sizeof(MessageHeader) + alignment_bytes) {
     LOG(ERROR) << "FusionEngine framing buffer too small. [capacity="
-               << capacity_bytes << " B, min=" << sizeof(MessageHeader)
-               << " B]";
+               << capacity_bytes << " B, alignment=" << alignment_bytes
+               << " B, min=" << sizeof(MessageHeader) << " B]";
     return;
   }
   // Restrict the buffer capacity to 2^31 bytes. We don't expect to ever have a
